@@ -172,7 +172,8 @@ func vLiftLex(buf string, assertID string) {
 		return
 	}
 	// same validity: try the run in a context where a mis-scanned remainder shows
-	for _, ctx := range []string{"(" + buf + ")", buf + " AND MIT", "MIT OR " + buf, buf + ")"} {
+	for _, ctx := range []string{"(" + buf + ")", buf + " AND MIT", "MIT OR " + buf, buf + ")",
+		"MIT " + buf + "MIT)", "MIT " + buf + "MIT", "(MIT " + buf + " MIT)", "MIT" + buf, "MIT " + buf + "Bison-exception-2.2"} {
 		w, a2 := vRefValid(ctx)
 		g, _ := ValidateLicenses([]string{ctx})
 		if !a2 && g != w {
